@@ -5,6 +5,7 @@ go 1.22.0
 require (
 	github.com/attestantio/dirk v0.0.0
 	github.com/attestantio/go-eth2-client v0.21.11
+	github.com/dgraph-io/badger/v2 v2.2007.4
 	github.com/herumi/bls-eth-go-binary v1.36.1
 	github.com/rs/zerolog v1.33.0
 	github.com/wealdtech/eth2-signer-api v1.7.2
@@ -27,7 +28,6 @@ require (
 	github.com/cespare/xxhash v1.1.0 // indirect
 	github.com/cespare/xxhash/v2 v2.3.0 // indirect
 	github.com/davecgh/go-spew v1.1.2-0.20180830191138-d8f796af33cc // indirect
-	github.com/dgraph-io/badger/v2 v2.2007.4 // indirect
 	github.com/dgraph-io/ristretto v0.2.0 // indirect
 	github.com/dgryski/go-farm v0.0.0-20200201041132-a6ae2369ad13 // indirect
 	github.com/dustin/go-humanize v1.0.1 // indirect
